@@ -446,6 +446,43 @@ def r6_answer_shape(repo: Repo, rep):
         rep.undecided(R, dom.module.relpath, dom.fq, "membership answers whose shape can be told", "none")
 
 
+def r7_own_columns(repo: Repo, rep):
+    R = rep.rule("R-C05-7", "analytic primitives read the coordinates of their own variables by name: points[:, list(self.space.keys())] — never the raw tensor of the Points they are given", floor=15,
+                 why="query points of Boolean / product / moved expressions carry further columns (other factors, parameters) in any order: the raw tensor has other columns in these positions")
+    dom = repo.cls("problem.domains.domain.Domain")
+    prim_mods = ("point", "interval", "circle", "parallelogram", "triangle", "sphere")
+    for ci in repo.subclasses(dom):
+        if ci.module.name.split(".")[-1] not in prim_mods:
+            continue
+        for mname in ("_contains", "normal"):
+            fi = ci.methods.get(mname)
+            if fi is None:
+                continue
+            pn = fi.params[1]
+            raw, named = [], 0
+            for p in paths(fi.node):
+                for e in p.events:
+                    if e.value is None:
+                        continue
+                    for n in ast.walk(e.value):
+                        if isinstance(n, ast.Attribute) and n.attr in ("as_tensor", "_t"):
+                            v = n.value
+                            # points (possibly after the normal() input transformation) without a name selection
+                            base = v
+                            while isinstance(base, ast.Subscript) and getattr(base, "_tuple_elt", False):
+                                base = base.value
+                            if isinstance(v, ast.Name) and v.id == pn:
+                                raw.append(dump(n))
+                            elif isinstance(v, ast.Subscript) and getattr(v, "_tuple_elt", False) and isinstance(base, ast.Call) and "_transform_input_for_normals" in dump(base.func):
+                                raw.append(dump(n)[:60])
+                            elif isinstance(v, ast.Subscript) and "self.space" in dump(v.slice):
+                                named += 1
+            if not raw and not named:
+                continue
+            rep.saw(fi)
+            rep.check(R, not raw and named > 0, fi.site(), fi.fq, "coordinates selected by list(self.space.keys())", f"raw tensor used: {sorted(set(raw))[:2]}", f"raw {sorted(set(raw))[:2]}")
+
+
 def _roles_of(expr: ast.AST, roles: Dict[str, Set[str]]) -> Set[str]:
     out = set()
     for n in ast.walk(expr):
@@ -641,6 +678,7 @@ def run(repo: Repo, rep):
     r4_cramer(repo, rep)
     r5_purity(repo, rep)
     r6_answer_shape(repo, rep)
+    r7_own_columns(repo, rep)
     from .c12 import r3_selection  # the name-based selection this property's idioms rely on
     r3_selection(repo, rep)
     from .c13 import r2_r3_mapping  # shape functions are evaluated with each row's own values: given names win over stored defaults
